@@ -861,8 +861,10 @@ def _magang_check(P, lst, groups):
                 f'and one overwrites the other')
     for (k, _), (nk, nv), v in zip(exp, named.items(), got.values()):
         full = P.nm_to_name(*k)
-        if not (isinstance(nk, str) and full.startswith(nk) and nk) or (float(nv[0]), float(nv[1])) != (float(v[0]), float(v[1])):
-            return f'class {k}: name key {nk!r} / value {nv} does not belong to {full!r} / {v}'
+        st_ = _parse_name(_zk()[1], full)
+        want = full if (st_ is None or st_[0] in (0, 2, 3)) else ' '.join(full.split(' ')[:-1])     # Tilt and the general terms lose the suffix
+        if nk != want or (float(nv[0]), float(nv[1])) != (float(v[0]), float(v[1])):
+            return f'class {k}: entry {nk!r}: {nv}; expected the name of the class without its X/Y/00°/45° suffix, {want!r}: {v}'
     return None
 
 
@@ -906,9 +908,19 @@ def _barplot_check(P, lst, sort, orientation, with_err):
         else:
             labels = [t.get_text() for t in ax.get_yticklabels()]
             sizes = [float(q.get_width()) for q in ax.patches]
+        segs = [np.asarray(sg) for c_ in ax.collections for sg in c_.get_segments()] if with_err else []
     finally:
         plt.close(fig)
     got = list(zip(labels, sizes))
+    if with_err:
+        # the error of a class is the magnitude of its error-bar coefficients = 0.1 * magnitude (all coefficients scaled by 0.1)
+        ax_ = 1 if orientation == 'h' else 0
+        half = [abs(float(sg[1][ax_] - sg[0][ax_])) / 2 for sg in segs]
+        if len(half) != len(exp):
+            return f'{len(half)} error bars for {len(exp)} classes'
+        for i, (hf, (el, es)) in enumerate(zip(half, exp)):
+            if abs(hf - 0.1 * es) > 1e-9 * max(1.0, es):
+                return f'error bar {i} ({el!r}) has half-length {hf!r}, the class has error {0.1 * es!r}: error bars are not in the order of the bars'
     if len(got) != len(exp):
         return f'{len(got)} bars for {len(exp)} classes'
     for i, ((gl, gs), (el, es)) in enumerate(zip(got, exp)):
@@ -938,8 +950,12 @@ def _coef_lists(ctx, fwd, count):
         elif mode == 'column':
             a = int(rng.integers(0, 9))
             nms = [x for x in nms if abs(x[1]) == a] or nms[:1]
-        cs = rng.standard_normal(len(nms)) + 0.05 * np.sign(rng.standard_normal(len(nms)))
-        cs = [float(c) if c != 0 else 0.5 for c in cs]
+        if t % 4 == 3:      # integer coefficients with pairwise different magnitudes (as in hand-written tables)
+            cs = [int(v) * (1 if sg else -1) for v, sg in zip(rng.permutation(len(nms)) + 1, rng.random(len(nms)) < 0.5)]
+            mode += '+int'
+        else:
+            cs = rng.standard_normal(len(nms)) + 0.05 * np.sign(rng.standard_normal(len(nms)))
+            cs = [float(c) if c != 0 else 0.5 for c in cs]
         out.append((f'{conv}:{mode}', [(int(n), int(m), c) for (n, m), c in zip(nms, cs)]))
     return out
 
@@ -996,7 +1012,7 @@ def _names_correspondence(ctx):
         npair = sum(1 for _, p in groups if len(p) == 2)
         case = {'coefs': [list(x) for x in lst]}
         ctx.case('magang', {'tag': tag, 'len': len(lst), 'first': list(lst[0]), 'c': lst[-1][2]}, nontrivial=npair > 0 and len(groups) > npair,
-                 tag=tag.split(':')[1] + (':pairs+singles' if 0 < npair < len(groups) else ':pairs' if npair else ':singles'))
+                 tag=tag.split(':')[1].split('+')[0] + (':int' if tag.endswith('+int') else '') + (':pairs+singles' if 0 < npair < len(groups) else ':pairs' if npair else ':singles'))
         d = _magang_check(P, lst, groups)
         if d and nbad < 2:
             nbad += 1
